@@ -35,6 +35,11 @@ var c07Bodies = [][]string{
 	{"{{x}}t", "##!> include defsx", "{{x}}u", "{{0y}}"},
 	// suffix pairs of an include line see the included text as written, definitions are expanded afterwards
 	{"##!> include tailx -- @ ~", "k"},
+	// an exclude file removes a line by its text as written, also when that text holds a reference that only the
+	// including file can resolve
+	{"##!> include-except usesx exx", "o"},
+	// more suffix lines than prefix lines, references in all of them
+	{"##!^ {{x}}", "##!$ {{0y}}", "##!$ {{x}}", "m"},
 }
 
 type c07Case struct {
@@ -76,6 +81,10 @@ func (c c07Case) program() (a string, b string) {
 		}
 		if l == "##!> include usesx" {
 			bl = append(bl, "a{{x}}b", "plain")
+			continue
+		}
+		if l == "##!> include-except usesx exx" {
+			bl = append(bl, "plain")
 			continue
 		}
 		if l == "##!> include tailx -- @ ~" {
@@ -179,6 +188,7 @@ type c07Out struct {
 func c07Tree() core.Tree {
 	t := c01Tree()
 	t["regex-assembly/include/usesx.ra"] = "a{{x}}b\nplain\n"
+	t["regex-assembly/exclude/exx.ra"] = "a{{x}}b\n"
 	t["regex-assembly/include/tailx.ra"] = "foo{{x}}\nplain@\n"
 	t["regex-assembly/include/defsw.ra"] = "##!> define w inner\n{{w}}r\nplain\n"
 	t["regex-assembly/include/defsx.ra"] = "##!> define x inner\n{{x}}r\nplain\n"
